@@ -138,3 +138,132 @@ def register(R: Registry):
             "cumsum-mono :: forall(lambda a, b: implies(0 <= a and a <= b and b <= len_(self.trees), self.cumsum[a] <= self.cumsum[b]))",
         ],
     )
+
+
+# ===========================================================================
+# LazyLoadingTrees / Population / Populations / NestTrees
+TREE = "swcgeom/core/tree.py"
+TREE_OF = z3.Function("tree_of", _I, _I)  # ghost: the tree stored in a file
+GHOST["tree_of"] = SpecFn(lambda e, a, k: Sym(TREE_OF(to_z3(a[0], "int")), "oref"), "tree_of")
+
+
+def lazy_obj(S, name="lz"):
+    from swcgeom.core.population import LazyLoadingTrees
+    from pyvc.values import PDict
+
+    swcs = S.plist("ref", name=name + "_swcs")
+    trees = S.plist("oref", name=name + "_trees")
+    return S.obj(LazyLoadingTrees, swcs=swcs, trees=trees, kwargs=PDict({}))
+
+
+WF_LAZY = [
+    "wf-same-length :: len_(self.trees) == len_(self.swcs)",
+    "wf-cache-is-file-content :: forall(0, len_(self.swcs), lambda j: implies(not same(self.trees[j], None), same(self.trees[j], tree_of(self.swcs[j]))))",
+]
+
+
+def register_lazy(R):
+    # assumed contract of the reader (its own correctness is C01/C02)
+    R.add(
+        f"{TREE}:Tree.from_swc",
+        prop="C19",
+        trusted=True,
+        returns="oref",
+        ensures=["not same(result, None)", "same(result, tree_of(swc_file))"],
+    )
+    R.add(
+        f"{POP}:LazyLoadingTrees.__len__",
+        prop="C19",
+        setup=lambda S: dict(self=lazy_obj(S), __ghost__=GHOST),
+        returns="int",
+        ensures=["number-of-files :: result == len_(self.swcs)"],
+    )
+    R.add(
+        f"{POP}:LazyLoadingTrees.__init__",
+        prop="C19",
+        setup=lambda S: (lambda m: dict(self=S.obj(__import__("swcgeom.core.population", fromlist=["x"]).LazyLoadingTrees), swcs=m, __ghost__=GHOST))(S.plist("ref", name="files")),
+        ensures=[
+            "files-kept :: len_(self.swcs) == len_(swcs) and forall(0, len_(swcs), lambda j: same(self.swcs[j], swcs[j]))",
+            "nothing-loaded :: len_(self.trees) == len_(self.swcs) and forall(0, len_(self.swcs), lambda j: same(self.trees[j], None))",
+            "construction-reads-no-file :: ncalls('Tree.from_swc') == 0",
+        ],
+    )
+    R.add(
+        f"{POP}:LazyLoadingTrees.load",
+        prop="C19",
+        setup=lambda S: dict(self=lazy_obj(S), key=S.int("key"), __ghost__=GHOST),
+        requires=WF_LAZY + ["key-in-range :: 0 <= key and key < len_(self.swcs)"],
+        modifies=["self.trees"],
+        ensures=[
+            "loaded :: not same(self.trees[key], None)",
+            "is-the-file-content :: same(self.trees[key], tree_of(self.swcs[key]))",
+            "length-kept :: len_(self.trees) == len_(old(self.trees))",
+            "others-untouched :: forall(0, len_(self.trees), lambda j: implies(j != key, same(self.trees[j], old(self.trees)[j])))",
+            "cached-tree-kept-without-reading :: implies(not same(old(self.trees)[key], None), same(self.trees[key], old(self.trees)[key]) and ncalls('Tree.from_swc') == 0)",
+            "reads-own-file-exactly-once :: implies(same(old(self.trees)[key], None), ncalls('Tree.from_swc') == 1 and same(callarg('Tree.from_swc', 0, 'swc_file'), self.swcs[key]))",
+            "never-reads-twice :: ncalls('Tree.from_swc') <= 1",
+        ],
+    )
+    R.add(
+        f"{POP}:LazyLoadingTrees.__getitem__",
+        prop="C19",
+        setup=lambda S: dict(self=lazy_obj(S), key=S.int("key"), __ghost__=GHOST),
+        requires=WF_LAZY,
+        modifies=["self.trees"],
+        raises={"IndexError": "out-of-range-only :: key < -len_(self.swcs) or key >= len_(self.swcs)"},
+        returns="oref",
+        ensures=[
+            "in-range-accepted :: -len_(self.swcs) <= key and key < len_(self.swcs)",
+            "tree-of-the-ith-file :: same(result, tree_of(self.swcs[ite(key < 0, key + len_(self.swcs), key)])) and not same(result, None)",
+            "only-that-entry-changes :: len_(self.trees) == len_(old(self.trees)) and forall(0, len_(self.trees), lambda j: implies(j != ite(key < 0, key + len_(self.swcs), key), same(self.trees[j], old(self.trees)[j])))",
+            "loads-only-the-requested-file :: ncalls('LazyLoadingTrees.load') == 1 and callarg('LazyLoadingTrees.load', 0, 'key') == ite(key < 0, key + len_(self.swcs), key)",
+            "wf-kept :: forall(0, len_(self.swcs), lambda j: implies(not same(self.trees[j], None), same(self.trees[j], tree_of(self.swcs[j]))))",
+        ],
+    )
+
+    def pop_obj(S):
+        from swcgeom.core.population import Population
+
+        return S.obj(Population, trees=lazy_obj(S), root="")
+
+    R.add(
+        f"{POP}:Population.__init__",
+        prop="C19",
+        setup=lambda S: dict(self=S.obj(__import__("swcgeom.core.population", fromlist=["x"]).Population), swcs=lazy_obj(S), __ghost__=GHOST),
+        requires=["wf-same-length :: len_(swcs.trees) == len_(swcs.swcs)",
+                  "wf-cache-is-file-content :: forall(0, len_(swcs.swcs), lambda j: implies(not same(swcs.trees[j], None), same(swcs.trees[j], tree_of(swcs.swcs[j]))))"],
+        ensures=[
+            "holds-the-trees :: same(self.trees, swcs)",
+            "at-most-a-probe-of-the-first-file :: ncalls('LazyLoadingTrees.__getitem__') <= 1 and implies(ncalls('LazyLoadingTrees.__getitem__') == 1, callarg('LazyLoadingTrees.__getitem__', 0, 'key') == 0)",
+            "no-direct-read :: ncalls('Tree.from_swc') == 0 and ncalls('LazyLoadingTrees.load') == 0",
+        ],
+    )
+    R.add(
+        f"{POP}:Population.__len__",
+        prop="C19",
+        setup=lambda S: dict(self=pop_obj(S), __ghost__=GHOST),
+        returns="int",
+        ensures=["number-of-files :: result == len_(self.trees.swcs)"],
+    )
+    R.add(
+        f"{POP}:Population.__getitem__",
+        prop="C19",
+        variants={
+            "int": lambda S: dict(self=pop_obj(S), key=S.int("key"), __ghost__=GHOST),
+        },
+        requires=["wf-same-length :: len_(self.trees.trees) == len_(self.trees.swcs)",
+                  "wf-cache-is-file-content :: forall(0, len_(self.trees.swcs), lambda j: implies(not same(self.trees.trees[j], None), same(self.trees.trees[j], tree_of(self.trees.swcs[j]))))"],
+        raises={"IndexError": "out-of-range-only :: key < -len_(self.trees.swcs) or key >= len_(self.trees.swcs)"},
+        ensures=[
+            "tree-of-the-ith-file :: same(result, tree_of(self.trees.swcs[ite(key < 0, key + len_(self.trees.swcs), key)]))",
+            "one-delegated-lookup :: ncalls('LazyLoadingTrees.__getitem__') == 1",
+        ],
+    )
+
+
+_register0 = register
+
+
+def register(R):  # noqa: F811
+    _register0(R)
+    register_lazy(R)
